@@ -52,6 +52,9 @@ CHECKS = {
          'EAO\'s own part of the optimiser (hand-over of bounds/rows/booleans/objective, result assembly, status handling, dual bookkeeping, split merging) is decided for ALL coefficient values of m<=3 x 3 problems over every row-type string and mapping shape, and for assembled LP/MIP problems; that the native solver answers optimally is an explicit contract, validated on seeded instances with every installed solver (instance testing, reported as such).'),
  'C17': ('Q1/Q2 characterisation of the real make_slp output as the two-stage program (both implications per scenario, value = mean of independently set-up scenario values); robust target through the cvxpy recorder stub (epigraph rows, objective, reported value)', '6 C17',
          'For contract+storage, two-node, transport-only-balance, reverse transport with costs, scaled and multi-commodity portfolios, boundary at first/middle/last step and 1-2 extra scenarios: the make_slp problem is exactly {x_p, z^s : F(x_p,z^s) for all s} with value the scenario mean, for all parameters and scenario prices; the property\'s bounds are consequences. Robust: recorded problem is max t, t <= -c_s.x, x in F.'),
+
+ 'C12': ('Q2 term-by-term identity of the lifted problems built for two main time units (rates x kappa, durations / kappa); Q3 embeddings against the reference model on DST / calendar-month grids with step lengths recomputed from UTC instants', '6 C12',
+         'Unit pairs h/d/min for storage (inflow, holding cost, max holding time), transport and contract with takes, Plant (ramp, last dispatch, runtime/downtime, running costs, fuel), scaled asset (fix costs) and split problems: identical problems for all parameter values incl. discount atoms. Irregular grids (CET/US-Eastern DST days, months): limits = rate x actual step length, holding cost and discounting follow real elapsed time, for all parameters and prices.'),
 }
 NA = {}
 props = [json.loads(l) for l in open(os.path.join(ROOT, 'properties.jsonl'))]
